@@ -1,3 +1,504 @@
+import PB.Model.Config
+import PB.Model.ConfigConc
 import PB.Drv.Loop
-/- Driver stub for C04 (model not built yet): every op is rejected. -/
-def main : IO Unit := PB.Drv.lineLoop (fun _ => "bad-op")
+/-
+Driver for C04. Sequential part: one call of the config package per line on the model state.
+Concurrent part (lines starting with `t`): acceptor for recorded traces of the flag/value hand-over,
+replayed through `PB.ConfigConc.step` with the sequential model supplying the values.
+Line protocol: see harness/cmd/hx-c04/main.go (the same tokens are produced there).
+-/
+namespace PB.Drv.C04
+open PB PB.Config
+
+/-! ### token parsing -/
+
+def splitOnChar (c : Char) (s : String) : List String :=
+  let rec go : List Char → List Char → List String → List String
+    | [], cur, acc => (String.ofList cur.reverse :: acc).reverse
+    | x :: xs, cur, acc => if x = c then go xs [] (String.ofList cur.reverse :: acc) else go xs (x :: cur) acc
+  go s.toList [] []
+
+/-- Split at the first occurrence of `c`. -/
+def cut (c : Char) (s : String) : Option (String × String) :=
+  let rec go : List Char → List Char → Option (String × String)
+    | [], _ => none
+    | x :: xs, cur => if x = c then some (String.ofList cur.reverse, String.ofList xs) else go xs (x :: cur)
+  go s.toList []
+
+/-- Strings travel as hex of their bytes; the model string has one char per byte. -/
+def unhexStr (h : String) : Option String :=
+  (parseHex h).map (fun bs => String.ofList (bs.map (fun b => Char.ofNat b.toNat)))
+
+def hexStr (s : String) : String := toHex (s.toList.map (fun c => UInt8.ofNat c.toNat))
+
+def parseKey (s : String) : Key := splitOnChar '/' s
+def showKey (k : Key) : String := "/".intercalate k
+
+def mapM? {α β : Type} (f : α → Option β) : List α → Option (List β)
+  | [] => some []
+  | a :: as => do
+    let b ← f a
+    let bs ← mapM? f as
+    pure (b :: bs)
+
+def parseInt (s : String) : Option Int := s.toInt?
+
+def parseStrList (s : String) : Option (List String) :=
+  if s = "" then some [] else mapM? unhexStr (splitOnChar ',' s)
+
+def parseIKind : String → Option IKind
+  | "int" => some .int | "i8" => some .i8 | "i16" => some .i16 | "i32" => some .i32 | "i64" => some .i64
+  | "uint" => some .uint | "u8" => some .u8 | "u16" => some .u16 | "u32" => some .u32
+  | _ => none
+
+def parseFlt (w : String) (x : String) : Option Val := do
+  let w32 ← (if w = "32" then some true else if w = "64" then some false else none)
+  let (neg, rest) := match x.toList with
+    | '-' :: r => (true, String.ofList r)
+    | _ => (false, x)
+  match cut '.' rest with
+  | none => do
+    let m ← rest.toNat?
+    pure (.flt w32 neg m false)
+  | some (a, b) => do
+    let m ← a.toNat?
+    if b = "5" then pure (.flt w32 neg m true) else none
+
+def parseElem (s : String) : Option (Option String) :=
+  match cut ':' s with
+  | some ("s", h) => (unhexStr h).map some
+  | some ("x", _) => some none
+  | _ => Option.none
+
+def parseVal (s : String) : Option Val :=
+  if s = "n" then some .nil else
+  match cut ':' s with
+  | some ("s", h) => (unhexStr h).map .str
+  | some ("a", l) => (parseStrList l).map .strs
+  | some ("A", _) => some (.strs [])                   -- typed nil []string
+  | some ("l", l) =>
+    if l = "" then some (.anys []) else (mapM? parseElem (splitOnChar ';' l)).map .anys
+  | some ("i", r) => do
+    let (k, n) ← cut ':' r
+    let k ← parseIKind k
+    let n ← parseInt n
+    pure (.int k n)
+  | some ("u64", n) => n.toNat?.map .u64
+  | some ("f", r) => do
+    let (w, x) ← cut ':' r
+    parseFlt w x
+  | some ("b", "1") => some (.bool true)
+  | some ("b", "0") => some (.bool false)
+  | some ("y", h) => some (.bytes h)
+  | some ("o", t) => some (.other t)
+  | _ => none
+
+def parseGVal (s : String) : Option GVal :=
+  match cut ':' s with
+  | some ("s", h) => (unhexStr h).map .s
+  | some ("a", l) => (parseStrList l).map .a
+  | some ("i", n) => (parseInt n).map .i
+  | some ("b", "1") => some (.b true)
+  | some ("b", "0") => some (.b false)
+  | _ => none
+
+def showGVal : GVal → String
+  | .s x => "s:" ++ hexStr x
+  | .a l => "a:" ++ ",".intercalate (l.map hexStr)
+  | .i n => "i:" ++ toString n
+  | .b true => "b:1"
+  | .b false => "b:0"
+
+def parsePV (s : String) : Option PV :=
+  match cut ':' s with
+  | some ("s", h) => (unhexStr h).map .s
+  | some ("i", n) => (parseInt n).map .i
+  | some ("b", "1") => some (.b true)
+  | some ("b", "0") => some (.b false)
+  | _ => none
+
+def parsePVs (s : String) : Option (Option (List PV)) :=
+  if s = "-" then some none
+  else if s = "e" then some (some [])
+  else (mapM? parsePV (splitOnChar ';' s)).map some
+
+def parseTy : String → Option OptType
+  | "s" => some .str | "a" => some .strs | "i" => some .int | "b" => some .bool | _ => none
+
+def parseKV (s : String) : Option (Key × Val) := do
+  let (k, v) ← cut '=' s
+  let v ← parseVal v
+  pure (parseKey k, v)
+
+def showVErr : VErr → String
+  | .notAllowed => "notallowed" | .type => "type" | .regex => "regex" | .entryNotString => "entry-notstring"
+  | .entryRegex => "entry-regex" | .entryNotAllowed => "entry-notallowed" | .float => "float"
+  | .badType => "badtype" | .func => "func"
+
+def sortStrs (l : List String) : List String := (l.toArray.qsort (· < ·)).toList
+
+def showErrs (es : List (Key × VErr)) : String :=
+  " ".intercalate ("errs" :: sortStrs (es.map (fun e => showKey e.1 ++ ":" ++ showVErr e.2)))
+
+def showSetRes : Except SetErr Unit → String
+  | .ok () => "ok"
+  | .error .unknown => "err unknown"
+  | .error (.invalid e) => "err " ++ showVErr e
+
+/-- A JSON-decoded leaf as the harness prints it after reading the real file back. -/
+def showJVal : Val → String
+  | .str s => "s:" ++ hexStr s
+  | .anys l => "l:" ++ ";".intercalate (l.map (fun e => match e with | some s => "s:" ++ hexStr s | none => "x:"))
+  | .flt _ neg mag half => "f:" ++ (if neg then "-" else "") ++ toString mag ++ (if half then ".5" else "")
+  | .bool true => "b:1"
+  | .bool false => "b:0"
+  | .nil => "n"
+  | _ => "o:"
+
+def showFile : File → String
+  | .absent => "absent"
+  | .garbage => "garbage"
+  | .tree t => " ".intercalate ("tree" :: sortStrs (t.map (fun e => showKey e.1 ++ "=" ++ showJVal e.2)))
+
+/-! ### trace acceptor state -/
+
+/-- What a setter thread of a recorded trace is doing. -/
+inductive TOp where
+  | set (user : Bool) (k : Key) (v : Val)
+  | rep (user : Bool) (m : List (Key × Val))
+  | get (cid : Nat)
+
+structure TThread where
+  op : TOp
+  ver : Option Nat := none            -- version written by this call so far
+  res : Option String := none         -- result computed by the model at the write step
+  need : Nat := 0                     -- getter: committed at begin
+
+structure TClosure where
+  key : Key
+  fb : GVal
+  g : PB.ConfigConc.Getter
+
+structure Acc where
+  on : Bool := false
+  sh : PB.ConfigConc.Shared := {}
+  hist : List St := []                -- newest first; version v is `hist[hist.length - 1 - v]`
+  cls : List (Nat × TClosure) := []
+  thr : List (Nat × TThread) := []
+  holder : Option Nat := none         -- thread holding validityFlagLock
+
+/-! ### driver state -/
+
+structure DSt where
+  st : St := init true
+  cls : List (Nat × Closure) := []
+  persps : List (Nat × List POpt) := []
+  acc : Acc := {}
+
+def assocSet {α : Type} (l : List (Nat × α)) (i : Nat) (a : α) : List (Nat × α) :=
+  (i, a) :: l.filter (fun e => e.1 ≠ i)
+
+def assocGet {α : Type} (l : List (Nat × α)) (i : Nat) : Option α := (l.find? (fun e => e.1 = i)).map (·.2)
+
+def bad (d : DSt) : DSt × String := (d, "bad-op")
+
+def handleSeq (d : DSt) (ws : List String) : DSt × String :=
+  match ws with
+  | ["init", p] => ({ st := init (p = "1") }, "ok")
+  | ["reg", k, ty, rl, rx, pvs, vf, mg, dv] =>
+    match parseTy ty, rl.toNat?, rx.toNat?, parsePVs pvs, vf.toNat?, mg.toNat?, parseVal dv with
+    | some ty, some rl, some rx, some pvs, some vf, some mg, some dv =>
+      match mkOpt (parseKey k) ty rl rx pvs vf mg dv with
+      | .ok o => ({ d with st := register d.st o }, "ok")
+      | .error .noKey => (d, "err nokey")
+      | .error (.badDefault e) => (d, "err default " ++ showVErr e)
+    | _, _, _, _, _, _, _ => bad d
+  | ["set", k, v] =>
+    match parseVal v with
+    | some v => let (st, r) := setUser d.st (parseKey k) v; ({ d with st := st }, showSetRes r)
+    | none => bad d
+  | ["setd", k, v] =>
+    match parseVal v with
+    | some v => let (st, r) := setDflt d.st (parseKey k) v; ({ d with st := st }, showSetRes r)
+    | none => bad d
+  | "rep" :: kvs =>
+    match mapM? parseKV kvs with
+    | some m => let (st, es) := replaceUser d.st m; ({ d with st := st }, showErrs es)
+    | none => bad d
+  | "repd" :: kvs =>
+    match mapM? parseKV kvs with
+    | some m => let (st, es) := replaceDflt d.st m; ({ d with st := st }, showErrs es)
+    | none => bad d
+  | "valc" :: kvs =>
+    match mapM? parseKV kvs with
+    | some m => let (es, unk) := validateConfig d.st m; (d, showErrs es ++ (if unk then " unk=1" else " unk=0"))
+    | none => bad d
+  | ["vv", k, v] =>
+    match parseVal v with
+    | some v =>
+      match d.st.find (parseKey k) with
+      | none => (d, "err unknown")
+      | some o => match check o v with
+        | .ok _ => (d, "ok")
+        | .error e => (d, "err " ++ showVErr e)
+    | none => bad d
+  | ["save"] => ({ d with st := save d.st }, "ok")
+  | ["load", b] =>
+    let (st, r) := load d.st (b = "1")
+    ({ d with st := st }, match r with
+      | .ok es => "ok " ++ showErrs es
+      | .error .noFile => "err nofile"
+      | .error .badJson => "err badjson"
+      | .error (.invalidEntries n) => "err invalid " ++ toString n)
+  | ["wfile", "absent"] => ({ d with st := { d.st with file := .absent } }, "ok")
+  | ["wfile", "garbage"] => ({ d with st := { d.st with file := .garbage } }, "ok")
+  | "wfile" :: "tree" :: kvs =>
+    match mapM? parseKV kvs with
+    | some m => ({ d with st := { d.st with file := .tree m } }, "ok")
+    | none => bad d
+  | ["rfile"] => (d, showFile d.st.file)
+  | ["get", k, fb] | ["cget", k, fb] =>
+    match parseGVal fb with
+    | some fb => (d, showGVal (get d.st (parseKey k) fb))
+    | none => bad d
+  | ["mk", id, _, k, fb] =>
+    match id.toNat?, parseGVal fb with
+    | some id, some fb => ({ d with cls := assocSet d.cls id (mkClosure d.st (parseKey k) fb) }, "ok")
+    | _, _ => bad d
+  | ["call", id] =>
+    match id.toNat? with
+    | some id =>
+      match assocGet d.cls id with
+      | some cl => let (cl', v) := cl.call d.st; ({ d with cls := assocSet d.cls id cl' }, showGVal v)
+      | none => bad d
+    | none => bad d
+  | ["uv", k] =>
+    match userValue d.st (parseKey k) with
+    | none => (d, "unknown")
+    | some none => (d, "unset")
+    | some (some v) => (d, "set " ++ showGVal v)
+  | ["active"] =>
+    (d, " ".intercalate ("active" :: sortStrs ((activeValues d.st).map (fun e => showKey e.1 ++ "=" ++ showGVal e.2))))
+  | ["exp", k] =>
+    match d.st.find (parseKey k) with
+    | none => (d, "unknown")
+    | some o =>
+      (d, "user=" ++ (match o.user with | some c => showGVal (c.proj o.ty) | none => "-") ++
+          " default=" ++ showGVal ((o.dflt.getD o.fallback).proj o.ty))
+  | ["rlgate"] => (d, toString d.st.gate)
+  | "persp" :: id :: kvs =>
+    match id.toNat?, mapM? parseKV kvs with
+    | some id, some m =>
+      let (p, n) := newPerspective d.st m
+      ({ d with persps := assocSet d.persps id p }, if n = 0 then "ok" else "err " ++ toString n)
+    | _, _ => bad d
+  | ["pget", id, k, ty] =>
+    match id.toNat?, parseTy ty with
+    | some id, some ty =>
+      match assocGet d.persps id with
+      | some p => (d, match pGet d.st p (parseKey k) ty with | some v => showGVal v | none => "none")
+      | none => bad d
+    | _, _ => bad d
+  | ["phas", id, k] =>
+    match id.toNat? with
+    | some id =>
+      match assocGet d.persps id with
+      | some p => (d, if pHas d.st p (parseKey k) then "true" else "false")
+      | none => bad d
+    | none => bad d
+  | _ => bad d
+
+/-! ### trace acceptor -/
+
+def rej (d : DSt) (why : String) : DSt × String := (d, "reject " ++ why)
+
+def histAt (a : Acc) (v : Nat) : Option St := a.hist[a.hist.length - 1 - v]?
+
+/-- Apply a model action to the shared part (with a throw-away getter). -/
+def shStep (a : Acc) (act : PB.ConfigConc.Act) : Option PB.ConfigConc.Shared :=
+  (PB.ConfigConc.step { sh := a.sh, g := {} } act).map (·.sh)
+
+/-- Apply a model action to closure `cid`. -/
+def gStep (a : Acc) (cid : Nat) (act : PB.ConfigConc.Act) : Option Acc :=
+  match assocGet a.cls cid with
+  | none => none
+  | some c =>
+    match PB.ConfigConc.step { sh := a.sh, g := c.g } act with
+    | none => none
+    | some s' => some { a with cls := assocSet a.cls cid { c with g := s'.g } }
+
+/-- A successful layer write of thread `tid`: new version, state snapshot. -/
+def doWrite (d : DSt) (tid : Nat) (t : TThread) (st' : St) (res : Option String) : DSt × String :=
+  let a := d.acc
+  let act := match t.ver with | some v => PB.ConfigConc.Act.rewrite v | none => PB.ConfigConc.Act.write
+  match shStep a act with
+  | none => rej d "write-not-enabled"
+  | some sh' =>
+    let t' := { t with ver := some sh'.ver, res := res }
+    ({ d with st := st', acc := { a with sh := sh', hist := st' :: a.hist, thr := assocSet a.thr tid t' } }, "ok")
+
+def handleTrace (d : DSt) (ws : List String) : DSt × String :=
+  let a := d.acc
+  match ws with
+  | ["tstart"] =>
+    ({ d with acc := { on := true, hist := [d.st] } }, "ok")
+  | ["tmk", cid, k, fb, _] =>
+    match cid.toNat?, parseGVal fb with
+    | some cid, some fb =>
+      let c : TClosure := { key := parseKey k, fb := fb, g := {} }
+      let a1 := { a with cls := assocSet a.cls cid c }
+      match gStep a1 cid .createFlag with
+      | none => rej d "create-flag"
+      | some a2 => match gStep a2 cid .createValue with
+        | none => rej d "create-value"
+        | some a3 => ({ d with acc := a3 }, "ok")
+    | _, _ => bad d
+  | "tcall" :: tid :: "set" :: [k, v] | "tcall" :: tid :: "setd" :: [k, v] =>
+    match tid.toNat?, parseVal v with
+    | some tid, some v =>
+      let user := ws.getD 2 "" = "set"
+      ({ d with acc := { a with thr := assocSet a.thr tid { op := .set user (parseKey k) v } } }, "ok")
+    | _, _ => bad d
+  | "tcall" :: tid :: "rep" :: kvs | "tcall" :: tid :: "repd" :: kvs =>
+    match tid.toNat?, mapM? parseKV kvs with
+    | some tid, some m =>
+      let user := ws.getD 2 "" = "rep"
+      let errs := showErrs (d.st.opts.filterMap (replErr m))
+      ({ d with acc := { a with thr := assocSet a.thr tid { op := .rep user m, res := some errs } } }, "ok")
+    | _, _ => bad d
+  | ["tcall", tid, "get", cid] =>
+    match tid.toNat?, cid.toNat? with
+    | some tid, some cid =>
+      match gStep a cid .begin with
+      | none => rej d "begin"
+      | some a' =>
+        ({ d with acc := { a' with thr := assocSet a'.thr tid { op := .get cid, need := a.sh.committed } } }, "ok")
+    | _, _ => bad d
+  | "tw" :: tid :: rest =>
+    match tid.toNat? with
+    | none => bad d
+    | some tid =>
+      match assocGet a.thr tid with
+      | none => rej d "unknown-thread"
+      | some t =>
+        match t.op, rest with
+        | .set user k v, _ =>
+          let (st', r) := if user then writeUser d.st k v else writeDflt d.st k v
+          (match r with
+          | .ok () => doWrite d tid t st' (some "ok")
+          | .error _ =>
+            -- a rejected value: no layer write, no signal; the state is what the locked section left
+            ({ d with st := st', acc := { a with thr := assocSet a.thr tid { t with res := some (showSetRes r) } } }, "ok"))
+        | .rep user m, [k] =>
+          let st' := if user then replStepUser d.st m (parseKey k) else replStepDflt d.st m (parseKey k)
+          doWrite d tid t st' t.res
+        | _, _ => rej d "write-by-non-setter"
+  | ["tinv", tid, f] =>
+    match tid.toNat?, f.toNat? with
+    | some tid, some f =>
+      match assocGet a.thr tid with
+      | some { ver := some v, .. } =>
+        if f ≠ a.sh.cur then rej d "invalidated-flag-is-not-current" else
+        match shStep a (.invalidate v) with
+        | none => rej d "invalidate-not-enabled"
+        | some sh' => ({ d with acc := { a with sh := sh', holder := some tid } }, "ok")
+      | _ => rej d "invalidate-without-write"
+    | _, _ => bad d
+  | ["tins", tid, f] =>
+    match tid.toNat?, f.toNat? with
+    | some tid, some f =>
+      if a.holder ≠ some tid then rej d "install-by-non-holder" else
+      match shStep a .install with
+      | none => rej d "install-not-enabled"
+      | some sh' =>
+        if f ≠ sh'.cur then rej d "installed-flag-id" else
+        ({ d with st := signal d.st, acc := { a with sh := sh', holder := none } }, "ok")
+    | _, _ => bad d
+  | ["tacq", tid] =>
+    match tid.toNat? with
+    | some tid =>
+      match assocGet a.thr tid with
+      | some { op := .get cid, need := n, .. } =>
+        (match gStep a cid (.acquire n) with
+        | none => rej d "acquire-not-enabled"
+        | some a' => ({ d with acc := a' }, "ok"))
+      | _ => rej d "unknown-getter-thread"
+    | none => bad d
+  | ["tstale", tid] | ["tval", tid] =>
+    match tid.toNat? with
+    | some tid =>
+      match assocGet a.thr tid with
+      | some { op := .get cid, .. } =>
+        let act := if ws.head? = some "tstale" then PB.ConfigConc.Act.checkStale else PB.ConfigConc.Act.fetchValue
+        (match gStep a cid act with
+        | none => rej d (if ws.head? = some "tstale" then "refresh-although-flag-valid" else "value-fetch-out-of-order")
+        | some a' => ({ d with acc := a' }, "ok"))
+      | _ => rej d "unknown-getter-thread"
+    | none => bad d
+  | ["tflag", tid, f] =>
+    match tid.toNat?, f.toNat? with
+    | some tid, some f =>
+      match assocGet a.thr tid with
+      | some { op := .get cid, .. } =>
+        if f ≠ a.sh.cur then rej d "fetched-flag-is-not-current" else
+        (match gStep a cid .fetchFlag with
+        | none => rej d "flag-fetch-out-of-order"
+        | some a' => ({ d with acc := a' }, "ok"))
+      | _ => rej d "unknown-getter-thread"
+    | _, _ => bad d
+  | "tret" :: tid :: res =>
+    match tid.toNat? with
+    | none => bad d
+    | some tid =>
+      let got := " ".intercalate res
+      match assocGet a.thr tid with
+      | none => rej d "unknown-thread"
+      | some t =>
+        let a0 := { a with thr := a.thr.filter (fun e => e.1 ≠ tid) }
+        match t.op with
+        | .get cid =>
+          -- a call that saw a valid flag returns the cached value without further events
+          let a1 := match assocGet a0.cls cid with
+            | some c => if c.g.pc = 1 then (gStep a0 cid .checkValid) else some a0
+            | none => none
+          (match a1 with
+          | none => rej d "returned-cached-value-although-flag-invalid"
+          | some a1 =>
+            match assocGet a1.cls cid with
+            | none => rej d "unknown-closure"
+            | some c =>
+              match gStep a1 cid .ret, histAt a1 c.g.cval with
+              | some a2, some stv =>
+                let want := showGVal (get stv c.key c.fb)
+                if c.g.cval < t.need then rej d "stale-version"
+                else if want ≠ got then rej d ("value model=" ++ want)
+                else ({ d with acc := a2 }, "ok")
+              | _, _ => rej d "return-not-enabled")
+        | .set user _ _ =>
+          (match t.res with
+          | none =>
+            -- no write step happened: only legal for an unknown option
+            if got = "err unknown" then ({ d with acc := a0 }, "ok") else rej d "return-without-write"
+          | some r =>
+            if r ≠ got then rej d ("result model=" ++ r)
+            else
+              let st' := if user ∧ r = "ok" then save d.st else d.st
+              ({ d with st := st', acc := a0 }, "ok"))
+        | .rep _ _ =>
+          (match t.res with
+          | some r => if r ≠ got then rej d ("result model=" ++ r) else ({ d with acc := a0 }, "ok")
+          | none => rej d "no-result")
+  | ["tend"] =>
+    if a.thr.isEmpty ∧ a.holder = none ∧ a.sh.setters.isEmpty then ({ d with acc := {} }, "ok")
+    else rej d "unfinished-threads"
+  | _ => bad d
+
+def handle (d : DSt) (line : String) : DSt × String :=
+  let ws := PB.Drv.words line
+  match ws with
+  | w :: _ => if w.startsWith "t" then handleTrace d ws else handleSeq d ws
+  | [] => bad d
+
+end PB.Drv.C04
+
+def main : IO Unit := PB.Drv.runState ({} : PB.Drv.C04.DSt) PB.Drv.C04.handle
